@@ -567,6 +567,51 @@ def sortHeaders (hs : List FileRec) : Option (List FileRec) :=
   let top := sortTexts (keys.filter fun d => pathDir d = ['.'])
   sortChildren hs (hs.length + 2) top
 
+/-! ### how many records `sortTarHeaders` emits (F16i)
+
+A directory NAME that occurs k times in the header list occurs k times in its parent's child list
+(`directoryChildren[dir] = append(…)` per record), and every occurrence emits the directory's whole
+subtree: the output is not linear in the input, and sorting that output again multiplies per level. -/
+
+/-- the number of records `sortChildren` emits, computed without building them: a name that occurs m times
+in the child list contributes m records, and m times the size of its subtree when it is stored as a
+directory, so the walk visits every distinct name once and its cost does not depend on the size of the
+answer (which is a `Nat`, 2^depth included).  `none` = fuel exhausted, as in `sortChildren`. -/
+def countChildren (hs : List FileRec) : Nat → List Text → Option Nat
+  | 0, _ => none
+  | fuel + 1, children =>
+    let rec go : List Text → Option Nat
+      | [] => some 0
+      | n :: rest =>
+        let m := children.count n
+        match lookupHeader hs n with
+        | none => go rest
+        | some h =>
+          if h.isDir then
+            match countChildren hs fuel (childrenOf hs n), go rest with
+            | some sub, some tl => some (m * (1 + sub) + tl)
+            | _, _ => none
+          else (go rest).map (m + ·)
+    go (dedupTexts children)
+
+/-- the length of `sortHeaders hs` -/
+def sortHeadersCount (hs : List FileRec) : Option Nat :=
+  let keys := dedupTexts (hs.map fun h => pathDir (pathClean h.name))
+  let top := keys.filter fun d => pathDir d = ['.']
+  countChildren hs (hs.length + 2) top
+
+/-- class F16i: two records clean to one name, the name is stored as a directory and has children -/
+def dupDirWithChildren (hs : List FileRec) : Bool :=
+  let names := hs.map fun h => pathClean h.name
+  names.any fun n => decide (1 < names.count n) &&
+    (match lookupHeader hs n with
+     | some h => h.isDir
+     | none => false) &&
+    !(childrenOf hs n).isEmpty
+
+/-- the size above which the harness does not run the real `sortTarHeaders` -/
+def sortSizeCap : Nat := 100000
+
 /-! ## `AddInstalledPackage` / `ParseInstalled` -/
 
 structure IPkg where
